@@ -260,6 +260,145 @@ Fixpoint asm_run (step : asm_stepfn) (st : asm_state) (inputs : list asm_input)
       end
   end.
 
+(* ---------------------------------------------------------------- queue.py: NMEAQueue.put_line on a BOUNDED queue
+
+   NMEAQueue(maxsize=n) with put_line(line, block=False) or put_line(line, timeout=t): the final
+   `super().put(item, block, timeout)` may raise queue.Full, which leaves put_line and reaches the caller.  The queue object
+   lives on, so -- unlike for the other escaping exceptions -- the state after the raise is part of the model.
+
+   Whether a put succeeds depends on how many items the consumer has taken so far.  That arithmetic stays outside: per
+   input line the environment says what the final put WOULD do (bq_put), so that everything proved holds for every
+   capacity and every consumer.  The value is consulted only when the line reaches a put.
+
+   queue_step_b follows put_line statement by statement like queue_step, and in addition makes the ORDER of the last
+   statements explicit: the pending wrapper is taken and cleared, (multi-part:) the message is assembled and its slot
+   deleted, THEN the put is attempted in that state (bq_do_put); a refused put skips whatever follows it (nothing, in the
+   code as it is). *)
+
+Inductive bq_put := BqPutOk | BqPutFull.                        (* what super().put(item, block, timeout) does *)
+
+Inductive bq_out :=
+| BqNone                          (* put_line returned None without reaching a put *)
+| BqPut (item : ais_sentence)     (* the item was put on the queue *)
+| BqFull.                         (* queue.Full left put_line *)
+
+(* super().put(item, block, timeout) executed in state st; `after` = the statements that follow the call (skipped when
+   queue.Full propagates) *)
+Definition bq_do_put (env : bq_put) (st : asm_state) (item : ais_sentence) (after : asm_state -> asm_state)
+  : M (asm_state * bq_out) :=
+  match env with
+  | BqPutOk => Ok (after st, BqPut item)
+  | BqPutFull => Ok (st, BqFull)                            (* raise Full *)
+  end.
+
+Definition queue_step_b (st : asm_state) (parsed : M sentence) (tbq : option exn) (env : bq_put)
+  : M (asm_state * bq_out) :=
+  r <- try_except (queue_try st parsed tbq) queue_except
+         (fun _ => Ok (st, None)) ;;                        (* except (..., IndexError): return None *)
+  let '(st1, fell_through) := r in
+  match fell_through with
+  | None => Ok (st1, BqNone)
+  | Some (SGatehouse _) => Ok (st1, BqNone)                 (* if not sentence.TYPE == AISSentence.TYPE: return None *)
+  | Some (SAis sentence) =>
+      let '(buffer, last_wrapper) := st1 in
+      if is_single sentence then
+        let '(sentence', last_wrapper') :=
+          match last_wrapper with                           (* if self.last_wrapper: *)
+          | Some w => (ais_set_wrapper sentence (Some w), None)   (* sentence.wrapper_msg = ...; self.last_wrapper = None *)
+          | None => (sentence, None)
+          end in
+        bq_do_put env (buffer, last_wrapper') sentence' (fun s => s)      (* super().put(sentence, block, timeout) *)
+      else
+        let seq_id := match a_seq_id sentence with None => -1 | Some v => v end in
+        let slot := (seq_id, a_channel sentence) in
+        let buffer1 :=
+          if negb (buf_mem buffer slot)
+          then buf_set buffer slot (pyl_repeat None (Z.max (fragment_count sentence) 255))
+          else buffer in
+        match buf_get buffer1 slot with
+        | None => Raise (Py KeyError)                       (* unreachable *)
+        | Some arr =>
+            arr' <- pyl_setitem arr (a_frag_num sentence - 1) (Some sentence) ;;
+            let buffer2 := buf_set buffer1 slot arr' in
+            let msg_parts := pyl_slice arr' 0 (fragment_count sentence) in
+            let not_none_parts := not_none msg_parts in
+            if pyl_len not_none_parts =? fragment_count sentence then
+              full <- assemble_from_iterable not_none_parts ;;
+              let '(full', last_wrapper') :=
+                match last_wrapper with                     (* if self.last_wrapper: *)
+                | Some w => (ais_set_wrapper full (Some w), None)       (* full.wrapper_msg = ...; self.last_wrapper = None *)
+                | None => (full, None)
+                end in
+              let buffer3 := buf_del buffer2 slot in        (* del self.buffer[slot] *)
+              bq_do_put env (buffer3, last_wrapper') full' (fun s => s)   (* super().put(full, block, timeout) *)
+            else Ok ((buffer2, last_wrapper), BqNone)
+        end
+  end.
+
+(* NOT the code: put_line with its last two statements exchanged (`super().put(full, block, timeout)` before
+   `del self.buffer[slot]`), as several reviewers proposed "so that the fragments are kept when the queue is full".  Kept
+   only for the counterexample in Props/C03.v (a refused message then stays in its slot and is mixed into the next
+   message of that slot); never extracted into the correspondence. *)
+Definition queue_step_b_put_before_del (st : asm_state) (parsed : M sentence) (tbq : option exn) (env : bq_put)
+  : M (asm_state * bq_out) :=
+  r <- try_except (queue_try st parsed tbq) queue_except (fun _ => Ok (st, None)) ;;
+  let '(st1, fell_through) := r in
+  match fell_through with
+  | None => Ok (st1, BqNone)
+  | Some (SGatehouse _) => Ok (st1, BqNone)
+  | Some (SAis sentence) =>
+      let '(buffer, last_wrapper) := st1 in
+      if is_single sentence then
+        let '(sentence', last_wrapper') :=
+          match last_wrapper with
+          | Some w => (ais_set_wrapper sentence (Some w), None)
+          | None => (sentence, None)
+          end in
+        bq_do_put env (buffer, last_wrapper') sentence' (fun s => s)
+      else
+        let seq_id := match a_seq_id sentence with None => -1 | Some v => v end in
+        let slot := (seq_id, a_channel sentence) in
+        let buffer1 :=
+          if negb (buf_mem buffer slot)
+          then buf_set buffer slot (pyl_repeat None (Z.max (fragment_count sentence) 255))
+          else buffer in
+        match buf_get buffer1 slot with
+        | None => Raise (Py KeyError)
+        | Some arr =>
+            arr' <- pyl_setitem arr (a_frag_num sentence - 1) (Some sentence) ;;
+            let buffer2 := buf_set buffer1 slot arr' in
+            let msg_parts := pyl_slice arr' 0 (fragment_count sentence) in
+            let not_none_parts := not_none msg_parts in
+            if pyl_len not_none_parts =? fragment_count sentence then
+              full <- assemble_from_iterable not_none_parts ;;
+              let '(full', last_wrapper') :=
+                match last_wrapper with
+                | Some w => (ais_set_wrapper full (Some w), None)
+                | None => (full, None)
+                end in
+              (* assemble_from_iterable works IN PLACE on messages[0]: the object in cell 0 of the slot now is `full` *)
+              let buffer2' := buf_set buffer2 slot (match arr' with [] => [] | _ :: r => Some full' :: r end) in
+              bq_do_put env (buffer2', last_wrapper') full' (fun '(b, w) => (buf_del b slot, w))
+            else Ok ((buffer2, last_wrapper), BqNone)
+        end
+  end.
+
+Definition bq_input := (asm_input * bq_put)%type.
+Definition bq_stepfn := asm_state -> M sentence -> option exn -> bq_put -> M (asm_state * bq_out).
+
+(* (outcome per line, final state or the exception -- other than queue.Full -- that ended the sequence of calls).  A caller
+   that catches queue.Full goes on with the next line (and does NOT offer the refused line again: a repeated last fragment
+   is a stale fragment for the slot table, which is already clean). *)
+Fixpoint bq_run (step : bq_stepfn) (st : asm_state) (inputs : list bq_input) : list bq_out * M asm_state :=
+  match inputs with
+  | [] => ([], Ok st)
+  | ((parsed, tbq), env) :: rest =>
+      match step st parsed tbq env with
+      | Raise e => ([], Raise e)
+      | Ok (st', out) => let '(outs, fin) := bq_run step st' rest in (out :: outs, fin)
+      end
+  end.
+
 (* ---------------------------------------------------------------- front-ends: which lines reach the loop *)
 
 Definition byte_line := list Z.
